@@ -601,6 +601,7 @@ func runC07(r *Run) {
 		}
 		r.c07DefaultTimeout(trans)
 		r.c07QueuedThenDropped(trans)
+		r.c07BurstBehindHandler(trans)
 	}
 	r.c07AfterRecovery()
 }
@@ -649,4 +650,63 @@ func (r *Run) c07QueuedThenDropped(trans string) {
 	}
 	r.st.Evaluations++
 	r.count("c07.queued-then-dropped." + trans)
+}
+
+// c07BurstBehindHandler: answers for 6 concurrent callers arrive in one burst while the dispatcher is inside a push
+// handler; the receive queue (16 by default) is far from full whatever the WRITE queue size is: every call gets its answer.
+func (r *Run) c07BurstBehindHandler(trans string) {
+	entered := make(chan struct{}, 1)
+	release := make(chan struct{})
+	s, err := openSessionPrep(trans, 1, func(tc *testClient) {
+		first := true
+		tc.cli.Subscribe(50, func(p *protocol.Packet) {
+			if first {
+				first = false
+				entered <- struct{}{}
+				<-release
+			}
+		})
+	}, client.WriteQueueSize(2))
+	if err != nil {
+		return
+	}
+	defer s.close()
+	var chans []chan doResult
+	var ids []uint32
+	for i := 0; i < 6; i++ {
+		chans = append(chans, s.tc.doAsync(uint32(30+i), nil, 2*time.Second))
+		q := s.lk.nextRequest(2 * time.Second)
+		if q == nil {
+			close(release)
+			return
+		}
+		ids = append(ids, q.Rid)
+	}
+	s.lk.sendFrame(pushFrame(1, 50, []byte("busy")))
+	select {
+	case <-entered:
+	case <-time.After(2 * time.Second):
+		close(release)
+		return
+	}
+	for i, id := range ids {
+		s.lk.sendFrame(respFrame(1, uint8(30+i), id, 0, []byte{byte(i)}))
+	}
+	time.Sleep(150 * time.Millisecond)
+	close(release)
+	lost := 0
+	for _, ch := range chans {
+		if res, ok := awaitDo(ch, 3*time.Second); !ok || res.pkt == nil {
+			lost++
+		}
+	}
+	if lost > 0 && s.tc.log.count("drop packet for channel full") == 0+lost {
+		// drops are logged: with a read queue of 16 none is legitimate here
+	}
+	if lost > 0 {
+		r.violate(Violation{What: fmt.Sprintf("%d of 6 calls lost their timely response although only 7 packets were pending against a receive queue of 16", lost),
+			Case: trans + ": WriteQueueSize(2), 6 concurrent calls, one push whose handler blocks, then the 6 answers in a burst"})
+	}
+	r.st.Evaluations++
+	r.count("c07.burst-behind-handler." + trans)
 }
